@@ -449,6 +449,7 @@ func cmdCheck(args []string) int {
 	var funcsUnder []string
 	var unclaimedArith []string
 	var vioLines []string
+	nReplays := 0
 	for _, key := range keys {
 		fo := outs[key]
 		if fo.VC.Err != nil {
@@ -505,7 +506,14 @@ func cmdCheck(args []string) int {
 			if a.Discharged != a.Total {
 				violations++
 				path := writeReplay(w, fo, key, n, a, replayDir, timeout)
-				confirmed := tryReplay(w, fo, key, n, a, path)
+				confirmed := false
+				if nReplays < 8 {
+					nReplays++
+					confirmed = tryReplay(w, fo, key, n, a, path)
+				} else if lf, err := os.OpenFile(path, os.O_APPEND|os.O_WRONLY, 0o644); err == nil {
+					fmt.Fprintf(lf, "\n---- replay on the real code ----\nnot attempted: this run already replayed 8 counterexamples\n")
+					lf.Close()
+				}
 				line := fmt.Sprintf("VIOLATION property=%s replay=%s obligation=%s/%s", *prop, path, key, n)
 				if !confirmed {
 					line += " no-failing-input-found"
